@@ -30,18 +30,41 @@ def fault_points(execution: Dict[str, Any], target: Dict[str, Any]) -> List[Dict
                 open_k = ev2.get("open_k")
         for call in range(n):
             pts.append({"path": ev["path"], "open_k": open_k, "call": call})
+    # every open the operation made (a denied open) and every operation on a directory entry (rename, replace,
+    # remove, makedirs ...: it may fail, or the process may die just before / just after it)
+    for ev in execution["sessions"][si]["events"]:
+        if ev.get("i") != oi or ev.get("w") is not None:
+            continue
+        if ev.get("ev") == "file_open" and (mode == "r" or ev.get("mode") == "w"):
+            # (for a writer only its opens for writing: the reads of that operation are the harness reading back)
+            pts.append({"type": "open", "path": ev["path"], "open_k": ev.get("open_k"), "cls": ev.get("mode")})
+        elif ev.get("ev") == "fs_op":
+            pts.append({"type": "fsop", "path": ev["path"], "fsop": ev["fsop"], "call": ev.get("call")})
     return pts
 
 
 def expand(points: List[Dict[str, Any]], kinds: List[str]) -> List[Tuple[Dict[str, Any], str]]:
-    return [(p, k) for p in points for k in kinds]
+    out: List[Tuple[Dict[str, Any], str]] = []
+    for p in points:
+        if p.get("type") == "open":
+            out.append((p, "open_eacces"))
+        elif p.get("type") == "fsop":
+            out.extend((p, k) for k in ("fsop_fail", "kill_before_fsop", "kill_after_fsop"))
+        else:
+            out.extend((p, k) for k in kinds)
+    return out
 
 
 def with_fault(plan: Dict[str, Any], target: Dict[str, Any], point: Dict[str, Any], kind: str) -> Dict[str, Any]:
     p2 = copy.deepcopy(plan)
     p2.pop("enumerate", None)
     sess = p2["sessions"][target["session"]]
-    sess.setdefault("env", {}).setdefault("faults", []).append(
-        {"kind": kind, "path": point["path"], "open_k": point["open_k"], "call": point["call"], "op": target["op"]})
+    if point.get("type") == "open":
+        fault = {"kind": kind, "path": point["path"], "open_k": point["open_k"], "cls": point["cls"], "op": target["op"]}
+    elif point.get("type") == "fsop":
+        fault = {"kind": kind, "path": point["path"], "fsop": point["fsop"], "call": point["call"], "op": target["op"]}
+    else:
+        fault = {"kind": kind, "path": point["path"], "open_k": point["open_k"], "call": point["call"], "op": target["op"]}
+    sess.setdefault("env", {}).setdefault("faults", []).append(fault)
     p2["enumerated_fault"] = {"target": target, "point": point, "kind": kind}
     return p2
